@@ -198,7 +198,7 @@ def specPermits (allow deny : List Cidr.Str) (ip : Cidr.Str) : Bool :=
     resolve <hx name> <wk of name> <wk of delegated (never consulted)> <srv script>
        -> ok:<dest,host,sni;...>|wk=<names asked for /.well-known> | err:invalid-server-name|wk=... | panic:...
 -/
-def handle (op : String) (args : Array String) : Option String :=
+def handleOne (op : String) (args : Array String) : Option String :=
   match op, args.toList with
   | "resolve", [n, wk1, _wk2, script] =>
     match unhexStr n, parseWK wk1, parseScript script with
@@ -278,5 +278,13 @@ def handle (op : String) (args : Array String) : Option String :=
         | some (h, p) => "ok:" ++ hexStr h ++ ":" ++ (match p with | none => "-1" | some p => toString p))
     | none => some "bad-op"
   | _, _ => none
+
+/-- `resolve_after name wk1 wk2 script first`: the resolution of `name` made after `first` was resolved in the same process on
+    the same network (all well-known replies cacheable).  Resolution is a function of the name and of what the network answers
+    — `C16.resolve_eq_spec` has no state argument — so the answer is that of `resolve name wk1 wk2 script`. -/
+def handle (op : String) (args : Array String) : Option String :=
+  match op, args.toList with
+  | "resolve_after", [n, wk1, wk2, script, _first] => handleOne "resolve" #[n, wk1, wk2, script]
+  | _, _ => handleOne op args
 
 end V.Driver.ResolveOps
